@@ -164,7 +164,7 @@ PROPS = {
             'min/max shard around the current count; explorer results present/absent/bad/unknown; failing POSTs and failing early scale request; '
             'malformed stream: min>max, max_proc=0. Membership under ALL schedules of the model (enumerated, budget 6000). non-trivial = the cycle '
             'sent at least one target POST or requested a scale different from the current count; distinct by input',
-    'theorems': 'C01_no_orphan C01_taken_only_if',
+    'theorems': 'C01_no_orphan C01_taken_only_if C01_closed_loop',
     'trusted_base': [   'model Model/Coordinator.v hand-written from rebalance.go/coordinator.go/shard.go; tie = differential run of the real '
                         'Coordinator (hook VerifRunOnce) against scripted shards through Shard.APIGet/APIPost, compared under every schedule of the '
                         'model',
@@ -200,12 +200,17 @@ PROPS = {
     'C05': {   'assumptions': [   'series/total/limits below 2^53 (float64 products exact in Base/Float64.v); int32/int64 overflow not modelled',
                        'explorer objects are not mutated within a cycle (value semantics; validated by the differential run)',
                        'time.Now() drift during the run is far below the idle-age margins used by the generator'],
-    'engines': [('coord', 1200, 24000, ['-propok', 'c05_case', '-shardsize', '100'])],
-    'level_note': 'Trusted: Coq kernel; hand-written cycle model tied to the Go code by differential runs under all schedules; generated constants; '
-                  'Go harness and driver. Partial (history form not composed).',
+    'engines': [('coord', 1200, 24000, ['-propok', 'c05_case', '-shardsize', '100']),
+                ('loop', 80, 2000, ['-shardsize', '10', '-propok', 'c05_loop_case'])],
+    'level_note': 'Trusted: Coq kernel; hand-written cycle model tied to the Go code by differential runs under all schedules; closed-loop World '
+                  'model validated in lock step against the real coordinator + real sidecars; generated constants; Go harness and driver.',
     'level_text': "Proof: one-cycle hand-over theorem with the README's literal 3 (needs the generated constant min_wait = 3; the obligation breaks "
-                  'if the Go constant changes), for all inputs and schedules. Partial: the closed-loop "no gap" form (counter restart on the '
-                  "sidecar, C10) is covered by C10's theorems and the loop engine, not composed into one theorem.",
+                  'if the Go constant changes), for all inputs and schedules; and the closed-loop form as one theorem over the World model '
+                  '(C05_no_gap_cycle / C05_no_gap_history): for every history of cycles with ANY faults under ANY schedule, scrape rounds, ticks '
+                  'and sidecar restarts, a discovered target that some sidecar holds is held by some sidecar after every step (composition of '
+                  'C01 keeper, C08 left-alone, C07 keeps-used and C10 update semantics). The same statement is evaluated on what the REAL '
+                  'sidecars report after every step of the loop engine (c05_loop_case). Partial in one respect: "scraped" is "held by a sidecar '
+                  'whose Prometheus was handed the target"; the scrape loop of Prometheus itself is outside the model.',
     'rule': 'one PRNG: 1-4 shards (1-6 thorough), 0-5 targets (0-7) over 1-2 jobs; each shard independently ready / status-GET fails / runtime-GET '
             'fails / hash differs with push accepted, rejected, still different, re-check failing (65% in sync); per copy state, health, scrape '
             'count from {0,1,2,3,4,5,9}; series/total around the limits (L-1,L,L+1,L/2,...; total >> series); reported loads consistent, at the '
@@ -213,7 +218,7 @@ PROPS = {
             'min/max shard around the current count; explorer results present/absent/bad/unknown; failing POSTs and failing early scale request; '
             'malformed stream: min>max, max_proc=0. Membership under ALL schedules of the model (enumerated, budget 6000). non-trivial = the cycle '
             'sent at least one target POST or requested a scale different from the current count; distinct by input',
-    'theorems': 'C05_handover C05_threshold_is_documented',
+    'theorems': 'C05_handover C05_threshold_is_documented C05_no_gap_cycle C05_no_gap_history (+ computed closed-loop example)',
     'trusted_base': [   'model Model/Coordinator.v hand-written from rebalance.go/coordinator.go/shard.go; tie = differential run of the real '
                         'Coordinator (hook VerifRunOnce) against scripted shards through Shard.APIGet/APIPost, compared under every schedule of the '
                         'model',
@@ -310,7 +315,7 @@ PROPS = {
         'level_note': 'Trusted: Coq kernel; hand-written two-route model validated three ways on every run; hypotheses of the theorem as listed.',
     },
     'C03': {'engines': [('loop', 120, 3000, ['-shardsize', '10'])], 'rule': "one PRNG: limits (process 60/100/200, head none/half/equal), max-shard 4-6, min-shard 0-1, max-idle 0 or 600 s; 1-5 (1-7) targets with sizes from 1 to limit-1 (total >= series), 1/9 unhealthy, 1/10 not discovered; 1-3 initial shards; initial placement empty (the system builds it) or ARBITRARY (each target on each shard with probability 1/3, 1/5 of the copies in_transfer: duplicates, pending transfers without partner, overload); a prefix of 0-4 events: rounds with or without a fault (a target update lost, a shard unreachable / not ready / refusing the configuration for that cycle), sidecar restarts (new process on the same store directory, default configuration), changes of the discovered set; then 14 fault-free rounds (cycle, every assigned copy scraped 3 times through the real proxy, 400 s pass). Real Coordinator (hook VerifRunOnce) against real TargetsManager+Service+Proxy per shard through Shard.APIGet/APIPost closures (JSON intact), a simulated StatefulSet following the last scale request, idle-since instants mapped between the world clock and the coordinator's clock. Observed after every step: every sidecar's /targets/status/ and /runtimeinfo/, POST bodies and scale requests of every cycle. non-trivial = all; distinct by input", 'theorems': 'C03_place_or_grow C03_placed_or_counted C03_needed_space_grows_the_replica C03_relief_need_nonnegative C03_orphan_transfer_recovered C03_in_transfer_has_partner C03_tie_broken_by_position (+ computed convergence example)', 'trusted_base': ["Model/World.v composes Model/Sidecar.v and Model/Coordinator.v with a StatefulSet and fault steps; it is run in LOCK STEP with the real closed loop: before every cycle the model builds the coordinator's input from ITS OWN sidecar states, the implementation's POST bodies / scale requests must be one of the model's outcomes (all schedules), and after every step every sidecar's reported state must equal the model's", 'the explorer and discovery are scripted by the harness (their behaviour is C20 / C17)', 'hooks: VerifRunOnce, VerifSetTimeNow'], 'assumptions': ['convergence bound: 14 fault-free rounds are enough for the generated sizes (<= 7 targets, <= 6 shards); a history that needs more would be reported as a violation', 'fairness: every assigned copy is scraped 3 times per round; a scale request takes effect before the next cycle; new shards start empty with the default configuration', 'the liveness statement itself (convergence within a bound from every well-formed world) is not one theorem: see Properties/C03.v STATUS'], 'level_text': "Proof (partial): for every input and every iteration order - an eligible target that assignment visits is placed or its size is added to the needed space; needed space from relief is never negative; non-zero needed space with all shards in sync asks for more than the current count, and clamping keeps that below max-shard (place-or-grow for one whole cycle); an in_transfer copy without partner is normal after the recovery pass and nothing stays in_transfer without one; equal loads no longer keep both copies of a duplicate. Not proved: the composition into 'converges within B rounds from every well-formed world, then nothing changes'; that is validated on the REAL closed loop (lock-step model agreement after every step, end states converged and stable).", 'level_note': 'Trusted: Coq kernel; hand-written closed-loop model validated in lock step; convergence is checked on runs, not proved (liveness).'},
-    'C06': {'engines': [('loop', 120, 3000, ['-shardsize', '10', '-propok', 'c06_case'])], 'rule': "one PRNG: limits (process 60/100/200, head none/half/equal), max-shard 4-6, min-shard 0-1, max-idle 0 or 600 s; 1-5 (1-7) targets with sizes from 1 to limit-1 (total >= series), 1/9 unhealthy, 1/10 not discovered; 1-3 initial shards; initial placement empty (the system builds it) or ARBITRARY (each target on each shard with probability 1/3, 1/5 of the copies in_transfer: duplicates, pending transfers without partner, overload); a prefix of 0-4 events: rounds with or without a fault (a target update lost, a shard unreachable / not ready / refusing the configuration for that cycle), sidecar restarts (new process on the same store directory, default configuration), changes of the discovered set; then 14 fault-free rounds (cycle, every assigned copy scraped 3 times through the real proxy, 400 s pass). Real Coordinator (hook VerifRunOnce) against real TargetsManager+Service+Proxy per shard through Shard.APIGet/APIPost closures (JSON intact), a simulated StatefulSet following the last scale request, idle-since instants mapped between the world clock and the coordinator's clock. Observed after every step: every sidecar's /targets/status/ and /runtimeinfo/, POST bodies and scale requests of every cycle. non-trivial = all; distinct by input", 'theorems': 'C06_faults_preserve_wf_cycle C06_faults_preserve_wf_step C06_no_target_in_transfer_for_ever C06_no_duplicate_for_ever C06_none_unscraped (+ computed recovery example)', 'trusted_base': ["Model/World.v composes Model/Sidecar.v and Model/Coordinator.v with a StatefulSet and fault steps; it is run in LOCK STEP with the real closed loop: before every cycle the model builds the coordinator's input from ITS OWN sidecar states, the implementation's POST bodies / scale requests must be one of the model's outcomes (all schedules), and after every step every sidecar's reported state must equal the model's", 'the explorer and discovery are scripted by the harness (their behaviour is C20 / C17)', 'hooks: VerifRunOnce, VerifSetTimeNow'], 'assumptions': ['convergence bound: 14 fault-free rounds are enough for the generated sizes (<= 7 targets, <= 6 shards); a history that needs more would be reported as a violation', 'fairness: every assigned copy is scraped 3 times per round; a scale request takes effect before the next cycle; new shards start empty with the default configuration', 'the liveness statement itself (convergence within a bound from every well-formed world) is not one theorem: see Properties/C03.v STATUS'], 'level_text': 'Proof (partial): every fault step (lost update, unreachable / unready / out-of-sync shard, restart, scaling) and every cycle with any POST bodies keeps every sidecar well formed (C10 invariant), for all histories; the states faults leave behind and the original code never left - an in_transfer copy without partner, equally loaded duplicates - are left in one cycle; an unscraped eligible target is placed or the replica grows. Not proved: bounded recovery as one theorem (inherits C03); validated on the real closed loop with injected faults followed by 14 fault-free rounds.', 'level_note': 'Trusted: Coq kernel; hand-written closed-loop model validated in lock step; convergence is checked on runs, not proved (liveness).'},
+    'C06': {'engines': [('loop', 120, 3000, ['-shardsize', '10', '-propok', 'c06_case'])], 'rule': "one PRNG: limits (process 60/100/200, head none/half/equal), max-shard 4-6, min-shard 0-1, max-idle 0 or 600 s; 1-5 (1-7) targets with sizes from 1 to limit-1 (total >= series), 1/9 unhealthy, 1/10 not discovered; 1-3 initial shards; initial placement empty (the system builds it) or ARBITRARY (each target on each shard with probability 1/3, 1/5 of the copies in_transfer: duplicates, pending transfers without partner, overload); a prefix of 0-4 events: rounds with or without a fault (a target update lost, a shard unreachable / not ready / refusing the configuration for that cycle), sidecar restarts (new process on the same store directory, default configuration), changes of the discovered set; then 14 fault-free rounds (cycle, every assigned copy scraped 3 times through the real proxy, 400 s pass). Real Coordinator (hook VerifRunOnce) against real TargetsManager+Service+Proxy per shard through Shard.APIGet/APIPost closures (JSON intact), a simulated StatefulSet following the last scale request, idle-since instants mapped between the world clock and the coordinator's clock. Observed after every step: every sidecar's /targets/status/ and /runtimeinfo/, POST bodies and scale requests of every cycle. non-trivial = all; distinct by input", 'theorems': 'C06_faults_preserve_wf_cycle C06_faults_preserve_wf_step C06_invariant_kept_by_faulty_cycle C06_no_target_lost_by_faults C06_no_target_in_transfer_for_ever C06_no_duplicate_for_ever C06_none_unscraped (+ computed recovery example)', 'trusted_base': ["Model/World.v composes Model/Sidecar.v and Model/Coordinator.v with a StatefulSet and fault steps; it is run in LOCK STEP with the real closed loop: before every cycle the model builds the coordinator's input from ITS OWN sidecar states, the implementation's POST bodies / scale requests must be one of the model's outcomes (all schedules), and after every step every sidecar's reported state must equal the model's", 'the explorer and discovery are scripted by the harness (their behaviour is C20 / C17)', 'hooks: VerifRunOnce, VerifSetTimeNow'], 'assumptions': ['convergence bound: 14 fault-free rounds are enough for the generated sizes (<= 7 targets, <= 6 shards); a history that needs more would be reported as a violation', 'fairness: every assigned copy is scraped 3 times per round; a scale request takes effect before the next cycle; new shards start empty with the default configuration', 'the liveness statement itself (convergence within a bound from every well-formed world) is not one theorem: see Properties/C03.v STATUS'], 'level_text': 'Proof (partial): every fault step (lost update, unreachable / unready / out-of-sync shard, restart, scaling) and every cycle with any POST bodies keeps every sidecar well formed (C10 invariant), for all histories; the whole-world invariant is kept by every faulty cycle of the model under every schedule, and through every such history a discovered target that some sidecar holds is never lost (C06_no_target_lost_by_faults: composition of C01, C07, C08, C10); the states faults leave behind and the original code never left - an in_transfer copy without partner, equally loaded duplicates - are left in one cycle; an unscraped eligible target is placed or the replica grows. Not proved: bounded recovery as one theorem (inherits C03); validated on the real closed loop with injected faults followed by 14 fault-free rounds.', 'level_note': 'Trusted: Coq kernel; hand-written closed-loop model validated in lock step; convergence is checked on runs, not proved (liveness).'},
     'C11': {
         'engines': [('inject', 300, 6000, ['-shardsize', '50'])],
         'rule': 'one PRNG: configuration TEXTS with/without global (+external labels), 0-2 rule files, alerting with an Alertmanager using none/basic/'
